@@ -1,5 +1,6 @@
 import Srctools.Wire
 import Srctools.Model.C14
+import Srctools.Model.C14Kv2
 import Srctools.Gen.Dmx
 import Srctools.Gen.Tok
 /-! Driver for the DMX model (C14).
@@ -120,6 +121,50 @@ def charFoldOf (j : Json) : Except String (Char → List Char) := do
     | some p => p.2
     | none => [c]
 
+/-! KV2: G2 = {"elems":[{"type":[cp],"name":[cp],"uuid":[cp],"attrs":[{"name":[cp],"t":n,"arr":b,"vals":[W…]}]}]},
+W = ["n"] | ["s",[cp]] | ["i",k] | ["x",[cp]] -/
+def tvalOf (j : Json) : Except String Kv2.TVal := do
+  let a ← j.getArr?
+  let tag ← (a[0]!).getStr?
+  match tag with
+  | "n" => pure (.ref .null)
+  | "s" => pure (.ref (.stub (← Wire.strOfCodes a[1]!)))
+  | "i" => pure (.ref (.idx (← (a[1]!).getNat?)))
+  | "x" => pure (.text (← Wire.strOfCodes a[1]!))
+  | _ => throw s!"bad text value tag {tag}"
+
+def tgraphOf (j : Json) : Except String Kv2.TGraph := do
+  let es ← (← j.getObjVal? "elems").getArr?
+  let elems ← es.toList.mapM fun e => do
+    let type ← Wire.strOfCodes (← e.getObjVal? "type")
+    let name ← Wire.strOfCodes (← e.getObjVal? "name")
+    let uuid ← Wire.strOfCodes (← e.getObjVal? "uuid")
+    let as ← (← e.getObjVal? "attrs").getArr?
+    let attrs ← as.toList.mapM fun a => do
+      let an ← Wire.strOfCodes (← a.getObjVal? "name")
+      let tn ← a.getObjValAs? Nat "t"
+      let some t := VT.ofNat? tn | throw "bad type number"
+      let arr ← a.getObjValAs? Bool "arr"
+      let vs ← (← a.getObjVal? "vals").getArr?
+      let vals ← vs.toList.mapM tvalOf
+      pure ({ name := an, type := t, isArray := arr, vals } : Kv2.TAttr)
+    pure ({ type, name, uuid, attrs } : Kv2.TElem)
+  pure { elems }
+
+def jsonOfFVal : Kv2.FVal → Json
+  | .null => Json.arr #[Json.str "n"]
+  | .uuid u => Json.arr #[Json.str "s", Wire.codesOfStr u]
+  | .node k => Json.arr #[Json.str "i", Json.num (JsonNumber.fromNat k)]
+  | .text s => Json.arr #[Json.str "x", Wire.codesOfStr s]
+
+def jsonOfNodes (ns : List Kv2.FNode) : Json :=
+  Json.arr (ns.map fun n => Json.mkObj [
+    ("type", Wire.codesOfStr n.type), ("name", Wire.codesOfStr n.name),
+    ("uuid", match n.uuid with | none => Json.null | some u => Wire.codesOfStr u),
+    ("attrs", Json.arr (n.attrs.map fun a => Json.mkObj [
+      ("name", Wire.codesOfStr a.name), ("t", Json.num (JsonNumber.fromNat a.type.toNat)),
+      ("arr", Json.bool a.isArray), ("vals", Json.arr (a.vals.map jsonOfFVal).toArray)]).toArray)]).toArray
+
 def handle (j : Json) : Except String Json := do
   let op ← j.getObjValAs? String "op"
   match op with
@@ -148,6 +193,17 @@ def handle (j : Json) : Except String Json := do
     match decodeBin T c bs with
     | .error e => pure (jsonOfErr e)
     | .ok g => pure (Json.mkObj [("g", jsonOfGraph g)])
+  | "kv2" =>
+    let flat ← j.getObjValAs? Bool "flat"
+    let cull ← j.getObjValAs? Bool "cull"
+    let g ← tgraphOf (← j.getObjVal? "g")
+    pure (Json.mkObj [("text", Wire.codesOfStr (Kv2.emit Gen.Tok.tables T flat cull g))])
+  | "kv2parse" =>
+    let s ← Wire.strOfCodes (← j.getObjVal? "text")
+    let f ← charFoldOf (← j.getObjVal? "fold")
+    match Kv2.parse Gen.Tok.tables T f s with
+    | .error e => pure (Json.mkObj [("err", Json.str e)])
+    | .ok ns => pure (Json.mkObj [("nodes", jsonOfNodes ns)])
   | "kv1" =>
     let t ← kvOf (← j.getObjVal? "t")
     let f ← strFoldOf (← j.getObjVal? "fold")
